@@ -516,6 +516,12 @@ def shard(ctx):
                 if j >= 4:
                     base, _w = D.mutate(base, rng, cn, kp)
                 tsp, n = inject_tags(base, rng, cn, rng.choice([1, 1, 1, 2, 3]))
+                if rng.random() < 0.25:
+                    # share equal sub-nodes through anchors/aliases: an alias
+                    # stands for a copy, tags on the anchored node included
+                    tsp, _na = D.share_equal_subnodes(tsp, rng, 0.8)
+                    if _na:
+                        ctx.count('aliased_documents')
                 try:
                     text = D.render(tsp, rng.choice(D.STYLES))
                 except (ValueError, RecursionError):
